@@ -152,6 +152,22 @@ func (w *mhWorld) op(o string) bool {
 		}
 		w.epoch++
 		ep := w.epoch
+		// can this hand-over complete? another server owns the path, the manager is at rest, every pool holds an open
+		// session and all of them are the requesting server's
+		canComplete := w.listening != nil && w.listening != s && w.openSessions(s) == w.n
+		if st, _, _ := w.smState(); st != defaultState {
+			canComplete = false
+		}
+		for _, p := range w.sm.pools {
+			if p.Session().IsClosed() {
+				canComplete = false
+			}
+		}
+		for _, o := range w.servers {
+			if o != s && !o.closed && w.openSessions(o) > 0 {
+				canComplete = false
+			}
+		}
 		var err error
 		var took int64
 		w.run(s.proc, 0, func() {
@@ -172,6 +188,13 @@ func (w *mhWorld) op(o string) bool {
 			w.fail("C16", "hotrestart-error", "H: Listener.HotRestart(%d) of server %c: %v", ep, s.tag, err)
 		} else if took > int64(hotRestartCheckTimeout)+int64(2*hotRestartCheckInterval) {
 			w.fail("C16", "listener-late", "H: server %c left the hot-restart state after %d ms (timeout %d ms + ticks)", s.tag, took/1e6, int64(hotRestartCheckTimeout)/1e6)
+		} else if canComplete {
+			// nothing stood in the way: every pool must now hold a session of the announced epoch on the server that listens
+			for i, p := range w.sm.pools {
+				if e := p.Session().epochID; e != ep || p.Session().IsClosed() {
+					w.fail("C16", "not-moved", "H: server %c asked for a hot restart to epoch %d with server %c listening, the manager at rest and all %d sessions alive; afterwards pool %d holds a session of epoch %d (closed=%v) - the listener reported the hand-over done after %d ms", s.tag, ep, w.listening.tag, w.n, i, e, p.Session().IsClosed(), took/1e6)
+				}
+			}
 		}
 	case "X":
 		var s *mhServer
